@@ -235,6 +235,7 @@ def cmp_chain_fields(c, kind, orig, loaded, info, with_coeff):
 def later(c, kind, name, f, orig, loaded, info):
     """run the same operation on copies of both; compare outcome"""
     def one(x):
+        np.random.seed(20240917)       # same global NumPy stream on both sides, whatever the operation draws
         try:
             return "ok", f(x.copy())
         except Exception as e:       # same exception on both sides = same behaviour (e.g. D14 on a one-site chain)
